@@ -71,6 +71,30 @@ def daqmx_twin(frec, fd, tys, h):
     return fd2, tys2
 
 
+def carry_twin(fd, h):
+    """-> the same file with every channel seen so far kept in the object list of later segments that do not write it,
+    as a "no data" entry; None if no segment drops a channel"""
+    import copy
+    fd3 = copy.deepcopy(fd)
+    known = {}
+    changed = False
+    for seg in fd3["segs"]:
+        if seg["meta"]:
+            present = {o["p"] for o in seg["objs"]}
+            absent = [p for p in known if p not in present]
+            extra_o = [{"p": p, "has": False, "n": 0, "ty": known[p]} for p in absent]
+            extra_l = [{"p": p, "kind": "nodata"} for p in absent]
+            if absent:
+                changed = True
+                if h % 2:
+                    seg["objs"], seg["listed"] = extra_o + seg["objs"], extra_l + seg["listed"]
+                else:
+                    seg["objs"], seg["listed"] = seg["objs"] + extra_o, seg["listed"] + extra_l
+            for o in seg["objs"]:
+                known[o["p"]] = o["ty"]
+    return fd3 if changed else None
+
+
 def _width_conflict(frec):
     """a channel must keep one type through the file: files where the same channel has two widths are skipped"""
     w = {}
@@ -177,27 +201,40 @@ def replay_trunc_case(case):
                     break
 
     sweep(e.data, full, tys, lambda c: c, "plain")
-    # the same file stored as DAQmx raw data (one raw buffer per channel, width = value size): raw data regions have the
-    # same lengths, metadata is longer; a cut is carried over structurally (same segment, same region, same offset)
-    twin = daqmx_twin(frec, fd, tys, zlib.crc32(repr(frec).encode()) + seed) if not fails else None
-    if twin is not None:
-        fd2, tys2 = twin
-        e2 = enc.encode(fd2, seed)
-        full2 = {nm: proj.expected_elems(tys2[nm], list(e2.scaler_values.get(PATH[nm], {}).get(0, []))) for nm in tys2}
 
+    def structural(e2):
+        """a cut of the plain file carried over to a twin whose raw data regions have the same lengths (only the
+        metadata differs): same segment, same region, same offset"""
         def cutmap(c):
             if c >= len(e.data):
                 return len(e2.data)
             for a, b in zip(e.segs, e2.segs):
-                if a["pos"] <= c < a["nextPos"] or (c < a["nextPos"]):
+                if c < a["nextPos"]:
                     if c <= a["pos"] + 28:
                         return b["pos"] + (c - a["pos"])
                     if c < a["dataPos"]:
                         return max(b["pos"] + 29, b["dataPos"] - (a["dataPos"] - c))
                     return b["dataPos"] + (c - a["dataPos"])
             return len(e2.data)
-        sweep(e2.data, full2, tys2, cutmap, "daqmx")
+        return cutmap
+
+    hh = zlib.crc32(repr(frec).encode()) + seed
+    # twin 1: the same file stored as DAQmx raw data (one raw buffer per channel, width = value size)
+    twin = daqmx_twin(frec, fd, tys, hh) if not fails else None
+    if twin is not None:
+        fd2, tys2 = twin
+        e2 = enc.encode(fd2, seed)
+        full2 = {nm: proj.expected_elems(tys2[nm], list(e2.scaler_values.get(PATH[nm], {}).get(0, []))) for nm in tys2}
+        sweep(e2.data, full2, tys2, structural(e2), "daqmx")
         obs["daqmx_twins"] = 1
+    # twin 2: channels a segment does not write stay in its object list, declared "no data" (what LabVIEW does when a
+    # channel pauses): same raw data, longer metadata
+    fd3 = carry_twin(fd, hh) if not fails else None
+    if fd3 is not None:
+        e3 = enc.encode(fd3, seed)
+        full3 = {nm: proj.expected_elems(tys[nm], e3.values.get(PATH[nm], [])) for nm in tys}
+        sweep(e3.data, full3, tys, structural(e3), "carried-no-data")
+        obs["carried_twins"] = 1
     n = counter[0]
     key = zlib.crc32(repr(frec).encode())
     return {"n": n, "keys": [key], "fails": fails, "validated": 1, "obs": obs}
